@@ -37,6 +37,7 @@ def run(ck):
     ck.rule("C13.R12", "the set of configured span lifecycle points is what the user's expression denotes: FmtSpan's operators compute the operator they are named after", floor=6)
     ck.rule("C13.R13", "a span's formatted fields accumulate: handing out the writer over them and recording further values never discards what is already there", floor=3)
     ck.rule("C13.R14", "a writer expression denotes what its spelling says: each MakeWriterExt adaptor builds its own combinator from (self, argument) in place, the provided make_writer_for is make_writer, and the sum / guard writers forward every io::Write method to the writer they hold", floor=20)
+    ck.rule("C13.R16", "the formatted fields a span's lines show are the ones stored for it: the per-span type map files and finds a value under its own type's id (as C14.R12)", floor=9)
     ck.rule("C13.R15", "a clock that cannot tell the time costs the timestamp, not the record: format_timestamp never returns the timer's error", floor=2)
     ck.rule("C13.R10", "every field a formatter's visitor is handed ends up in the record: no record_* path drops a field (except after an earlier write error)", floor=4)
     ck.rule("C13.R9", "formatter options have the polarity of their name: nothing is written because a display_* flag is off", floor=4)
@@ -60,6 +61,8 @@ def run(ck):
     r13(ck, F)
     r14(ck, F)
     r15(ck, F)
+    from rules import C14 as _C14
+    _C14.extensions_typemap(ck, F, "C13.R16")
     from rules import C02
     C02.r6(ck, F, rid="C13.R8")
 
